@@ -335,6 +335,7 @@ fn judge_c05(env: &Env, case: &Case, out: &Outcome, injected: Option<u32>, fails
             if s.stall_k > 0 {
                 rep.class_if(sr.stall_obs & 1 != 0 && s.joined(), "join-called-while-the-thread-sleeps-in-its-epilogue");
                 rep.class_if(sr.stall_obs & 1 != 0 && !s.joined(), "handle-dropped-while-the-thread-sleeps-in-its-epilogue");
+                rep.class_if(s.reuse && sr.stall_obs & 1 != 0 && !s.joined(), "join-state-reusable-while-the-dropped-thread-is-finishing");
                 if sr.stall_obs & 2 != 0 {
                     fails.push(f(format!("join|returned while the thread was still running its epilogue|{}", if s.panic { "panicked" } else { "returned" }), format!("{ctxt}: join came back while the thread was still asleep inside a free of its epilogue (stalled free #{} of {} ns): join must block until the thread has finished", sr.stall_obs >> 4, s.stall_ns)));
                 }
@@ -757,7 +758,7 @@ fn spec_strategy(c06: bool) -> impl Strategy<Value = Spec> {
         (-40_000i64..200_000, prop::bool::weighted(0.12), 200_000u32..1_500_000, prop::bool::weighted(0.10), 1u8..=2, 200_000u32..700_000),
     )
         .prop_map(|(ty, panic, disp, inline, cd, pd, buflen, tag, (jitter, spurious, sp_delay, stall, stall_k, stall_ns))| {
-            let mut s = Spec { ty, panic, disp, inline, child_delay: cd, parent_delay: pd, buflen, tag, spurious: false, stall_ns: 0, stall_k: 0 };
+            let mut s = Spec { ty, panic, disp, inline, child_delay: cd, parent_delay: pd, buflen, tag, spurious: false, stall_ns: 0, stall_k: 0, reuse: false };
             if spurious && !panic && (disp == DISP_JOIN || disp == DISP_KEEP_END) {
                 // the thread sleeps first so that the joiner is parked when the spurious wake-up arrives
                 s.spurious = true;
@@ -828,7 +829,7 @@ fn fault_case_strategy(builds: Vec<&'static str>) -> impl Strategy<Value = Case>
 }
 
 fn sp(ty: u8, panic: bool, disp: u8, inline: bool, cd: Delay, pd: Delay, buflen: u16, tag: u64) -> Spec {
-    Spec { ty, panic, disp, inline, child_delay: cd, parent_delay: pd, buflen, tag, spurious: false, stall_ns: 0, stall_k: 0 }
+    Spec { ty, panic, disp, inline, child_delay: cd, parent_delay: pd, buflen, tag, spurious: false, stall_ns: 0, stall_k: 0, reuse: false }
 }
 
 /// The four fixed small batches of the fault enumeration.
@@ -922,6 +923,24 @@ fn stall_batch(k: u8, join: bool) -> Batch {
     Batch { specs }
 }
 
+/// Pairs (A, B) of threads with the same result type, without the probe's quarantine: A's handle is dropped
+/// exactly when the k-th stalled free of A's epilogue has begun, B is spawned right afterwards (its join state is
+/// the next allocation of that size) and joined at once while it still works for 3 ms.
+fn reuse_batch(k: u8) -> Batch {
+    let mut specs = Vec::new();
+    for (n, ty) in [2u8, 0, 8].into_iter().enumerate() {
+        let mut a = sp(ty, false, DISP_DROP_LATER, true, Delay::Spin(2_000), Delay::None, 16, 0x4e00 + 2 * n as u64);
+        a.stall_ns = 600_000;
+        a.stall_k = k;
+        a.reuse = true;
+        let mut b = sp(ty, false, DISP_JOIN, true, Delay::Sleep(3_000_000), Delay::None, 16, 0x4e01 + 2 * n as u64);
+        b.reuse = true;
+        specs.push(a);
+        specs.push(b);
+    }
+    Batch { specs }
+}
+
 pub fn run(ctx: &Ctx) {
     let c06 = ctx.prop == "C06";
     let env = Env {
@@ -945,6 +964,19 @@ pub fn run(ctx: &Ctx) {
             if (k as u32 + 1) % ctx.nworkers == ctx.worker {
                 let case = Case { build: build.to_string(), strace: false, fault: None, batches: vec![stall_batch(1, true), stall_batch(2, true), stall_batch(3, true), stall_batch(1, false), stall_batch(2, false), stall_batch(3, false)] };
                 if !ctx.run_one("epilogue", &case, || run_case(&env, &case)) {
+                    break;
+                }
+            }
+        }
+    }
+    // a handle dropped while its thread is finishing, the next spawn taking over the freed join state
+    if let Some(case) = ctx.replay_case::<Case>("reuse") {
+        ctx.run_one("reuse", &case, || env.attempt(&case));
+    } else if !ctx.is_replay() {
+        for (k, build) in builds.iter().enumerate() {
+            if (k as u32 + 2) % ctx.nworkers == ctx.worker {
+                let case = Case { build: build.to_string(), strace: false, fault: None, batches: vec![reuse_batch(1), reuse_batch(2), reuse_batch(3), reuse_batch(1), reuse_batch(2), reuse_batch(3)] };
+                if !ctx.run_one("reuse", &case, || run_case(&env, &case)) {
                     break;
                 }
             }
